@@ -19,6 +19,7 @@ JOBS = int(os.environ.get("VERIF_JOBS", "16"))
 CXX = "clang++"
 SAN = ["-fsanitize=address,undefined", "-fno-sanitize-recover=undefined", "-fno-sanitize=nonnull-attribute"]
 BASEFLAGS = ["-std=c++20", "-g", "-O1", "-fno-omit-frame-pointer", "-Wno-deprecated-declarations", "-DST_VERIF_HOOKS"]
+BUILD_VERSION = "3"   # bump when compile/link commands change (part of every build-cache key)
 ASAN_ENV = "detect_leaks=0:detect_container_overflow=0:allocator_may_return_null=1:abort_on_error=0:handle_abort=0:max_malloc_fill_size=4096:malloc_fill_byte=190"
 
 sys.path.insert(0, VERIF)
@@ -108,7 +109,7 @@ def build_engines():
 
 def harness_sources(pid):
     h = os.path.join(VERIF, "harness")
-    files = [os.path.join(h, "prop_%s.cpp" % pid), os.path.abspath(__file__)]
+    files = [os.path.join(h, "prop_%s.cpp" % pid)]
     for sub in ("common", "ref", "gen"):
         p = os.path.join(h, sub)
         if os.path.isdir(p):
@@ -128,7 +129,7 @@ def build_prop(pid, variant="", want_fuzz=False, quiet=True):
     flags = BASEFLAGS + san + vflags + ["-I", os.path.join(REPO, "include"), "-I", cfginc, "-I", os.path.join(VERIF, "harness"),
                                        "-include", os.path.join(VERIF, "harness", "common", "st_hook.h")]
     srcs = harness_sources(pid)
-    key = file_hash(tree_files(os.path.join(REPO, "include")) + [os.path.join(cfginc, "st_config.h")] + srcs, " ".join(flags) + REPO + eng["engine"])
+    key = file_hash(tree_files(os.path.join(REPO, "include")) + [os.path.join(cfginc, "st_config.h")] + srcs, " ".join(flags) + REPO + eng["engine"] + BUILD_VERSION)
     tag = pid + ("-" + variant if variant else "")
     d = os.path.join(BUILD, "prop-%s-%s" % (tag, key))
     binp = os.path.join(d, "prop")
@@ -277,6 +278,29 @@ def check(pid, tier):
             n_regress += 1
             if bad:
                 candidates.append((v, f, "regression corpus"))
+
+    # 1b. open known findings: their saved inputs are replayed with the generator's exclusion switched off;
+    #     a finding that still reproduces is announced (KNOWN-FINDING), never added at run time
+    known_lines = []
+    for k in load_known().get("open", []):
+        if k.get("property") != pid:
+            continue
+        still = False
+        for rel in k.get("replay", []):
+            f = os.path.join(VERIF, rel)
+            env = dict(os.environ); env.update(envbase); env["VERIF_INCLUDE_KNOWN"] = "1"
+            for v in variants:
+                try:
+                    rr = subprocess.run([bins[v]["prop"], "replay", f], stdout=subprocess.PIPE, stderr=subprocess.STDOUT, env=env, timeout=120)
+                    out = rr.stdout.decode("utf-8", "replace")
+                    if rr.returncode != 0 and re.search(k["match"], out, re.S):
+                        still = True
+                except subprocess.TimeoutExpired:
+                    pass
+        if still:
+            known_lines.append("KNOWN-FINDING: property=%s %s" % (pid, k["what"]))
+        else:
+            notes.append("open finding %s did not reproduce from its saved inputs (repaired?)" % k["id"])
 
     cmds = []
     # 2. enumerators
@@ -446,7 +470,9 @@ def check(pid, tier):
     with open(os.path.join(VERIF, "evidence", pid + ".json"), "w") as f:
         json.dump(evidence, f, indent=1)
         f.write("\n")
-    printed = set()
+    for l in known_lines:
+        print(l)
+    printed = set(k["id"] for k in load_known().get("open", []) if any(k["what"] in l for l in known_lines))
     for k in known_hits:
         if k["id"] not in printed:
             printed.add(k["id"])
